@@ -217,14 +217,51 @@ Proof.
   - apply gsum_zero. intros; ring.
 Qed.
 
+(* An environment V is a MODEL of program p when every bound name has the value of its
+   defining expression in V.  The final environment of an SSA program is a model
+   ([runG_is_fix]); identity theorems are stated for every model, with V abstract, so that
+   the atoms seen by [ring] stay small. *)
+Definition is_fix {I : Type} (O : ops I) (p : prog) (V : string -> I -> R) : Prop :=
+  forall x e, defn p x = Some e -> V x = evalG O V e.
+
+Lemma runG_is_fix {I : Type} (O : ops I) p rho : ssa p = true -> is_fix O p (runG O p rho).
+Proof. intros Hs x e Hd. apply run_fix; assumption. Qed.
+
+Ltac unfold_fix O p HV x :=
+  let d := eval vm_compute in (defn p x) in
+  lazymatch d with
+  | Some ?e =>
+      let H := constr:(@eq_refl (option expr) (Some e) <: defn p x = Some e) in
+      try (rewrite (HV x e H); cbn [evalG])
+  | None => fail "no binding for" x
+  end.
+
+Ltac unfold_fixes O p HV l :=
+  lazymatch l with
+  | nil => idtac
+  | cons ?x ?l' => unfold_fix O p HV x; unfold_fixes O p HV l'
+  end.
+
+Ltac qsimp := unfold Q2R; cbn [QArith_base.Qnum QArith_base.Qden]; rewrite ?Rinv_1, ?Rmult_1_r.
+
 (* ---- tactics ---- *)
+Ltac unfold_def_opt O p Hssa rho x :=
+  let d := eval vm_compute in (defn p x) in
+  lazymatch d with
+  | Some ?e =>
+      let H := constr:(@eq_refl (option expr) (Some e) <: defn p x = Some e) in
+      try (rewrite (run_fix O p Hssa rho x e H); cbn [evalG])
+  | None => fail "no binding for" x
+  end.
+
 (* rewrite the value of bound name x (a string literal) of program p, in the final
    environment, by its definition; Hssa : ssa p = true *)
 Ltac unfold_def O p Hssa rho x :=
   let d := eval vm_compute in (defn p x) in
   lazymatch d with
   | Some ?e =>
-      rewrite (run_fix O p Hssa rho x e (eq_refl <: defn p x = Some e));
+      let H := constr:(@eq_refl (option expr) (Some e) <: defn p x = Some e) in
+      rewrite (run_fix O p Hssa rho x e H);
       cbn [evalG]
   | None => fail "no binding for" x
   end.
